@@ -1,4 +1,124 @@
-(* placeholder while the pipeline is brought up; replaced below *)
-From Verif Require Import Common.Base C01.Model.
-Theorem placeholder_true : True. Proof. exact I. Qed.
-Print Assumptions placeholder_true.
+(* C01/Properties.v — the property theorems, nothing else.  Each is closed by [exact lemma] and
+   followed by Print Assumptions (captured into the evidence by the check driver).
+   Model: C01/Model.v (persistent_queue.go as it is now); predicates: C01/Spec.v.
+   A history is a list of (script, budget) incarnations run on the same storage contents, the
+   budget being the number of storage calls after which the process dies (counted from the first
+   call of Start, so deaths inside start-up recovery — also of an incarnation that is itself
+   recovering from a death — are included); [run_history c store0 h] starts from the empty store. *)
+From Verif Require Import Common.Base C01.Model C01.Spec C01.Proofs1 C01.Proofs2 C01.Proofs3 C01.Proofs4 C01.Proofs5.
+From Coq Require Import Sorted.
+
+(* ---- codecs ---- *)
+Theorem codec_roundtrip :
+  (forall n, (n < 2 ^ 64)%N -> bytesToItemIndex (Some (itemIndexToBytes n)) = inl n) /\
+  (forall l, Forall (fun n => (n < 2 ^ 64)%N) l -> (N.of_nat (length l) < 2 ^ 32)%N ->
+             bytesToItemIndexArray (Some (itemIndexArrayToBytes l)) = inl l) /\
+  (forall n, (n < 2 ^ 64)%N -> dec_req (Some (enc_req n)) = Some n).
+Proof. exact (conj index_roundtrip (conj array_roundtrip req_roundtrip)). Qed.
+Print Assumptions codec_roundtrip.
+
+Theorem codec_rejects_exactly : forall buf,
+  (bytesToItemIndex buf = inr ErrNotSet <-> buf = None) /\
+  (bytesToItemIndex buf = inr ErrInvalid <-> exists b, buf = Some b /\ (length b < 8)%nat) /\
+  (bytesToItemIndexArray buf = inr ErrInvalid <->
+     exists b, buf = Some b /\ b <> [] /\
+       ((length b < 4)%nat \/
+        (4 <= length b)%nat /\ le_val (firstn 4 b) <> 0%N /\
+        (N.of_nat (length (skipn 4 b)) < le_val (firstn 4 b) * 8)%N)).
+Proof.
+  exact (fun buf => conj (proj1 (index_decoder_rejects buf))
+                         (conj (proj2 (index_decoder_rejects buf)) (array_decoder_rejects buf))).
+Qed.
+Print Assumptions codec_rejects_exactly.
+
+(* ---- second sentence: a request disappears from storage only after a final hand-off ----
+   For EVERY configuration, EVERY history (any number of incarnations, each cut at ANY storage-call
+   boundary, recovery included) and every accepted request id r: r has completed a hand-off with a
+   final outcome, or r is durable in the store the history leaves behind (its body is stored under
+   an index in [ri, wi) or under an index listed in "di").  Every prefix of a history cut at a
+   storage-call boundary is itself a history (last budget finite), so this is the invariant at
+   every boundary. *)
+Theorem pq_durable_or_final : forall c h r,
+  In r (accepted (snd (run_history c store0 h))) ->
+  In r (finals (snd (run_history c store0 h))) \/ durable (fst (run_history c store0 h)) r.
+Proof. exact durable_or_final_l. Qed.
+Print Assumptions pq_durable_or_final.
+
+(* the same from any well-formed store (e.g. one written by an earlier version run) *)
+Theorem pq_durable_or_final_any_store : forall c st0 h, wf_store st0 -> forall r,
+  In r (accepted (snd (run_history c st0 h))) ->
+  In r (finals (snd (run_history c st0 h))) \/ durable (fst (run_history c st0 h)) r.
+Proof. exact durable_or_final_wf_l. Qed.
+Print Assumptions pq_durable_or_final_any_store.
+
+(* a final outcome is only ever reported for a request that was handed off *)
+Theorem pq_final_was_handed_off : forall c h r,
+  In r (finals (snd (run_history c store0 h))) -> In r (handoffs (snd (run_history c store0 h))).
+Proof. exact final_was_handed_l. Qed.
+Print Assumptions pq_final_was_handed_off.
+
+(* a hand-off interrupted by shutdown: the completion performs no storage call, the store (body,
+   "di" entry) is unchanged and no budget is consumed *)
+Theorem pq_shutdown_keeps : forall c v outs k b st,
+  exists s', run_act b st (run_op c (v, outs) (Complete k OShutdown)) =
+             (st, b, Some (s', RComplete (match nth_error outs k with Some _ => true | None => false end))).
+Proof. exact shutdown_keeps_l. Qed.
+Print Assumptions pq_shutdown_keeps.
+
+(* the store a history leaves behind is always well-formed: ri <= wi, dispatched indexes below ri *)
+Theorem pq_store_wellformed : forall c h, wf_store (fst (run_history c store0 h)).
+Proof. exact store_wf_l. Qed.
+Print Assumptions pq_store_wellformed.
+
+(* first sentence, safety half: whenever a history leaves nothing durable behind (the queue has
+   been drained), every accepted request has been handed to the consumer at least once *)
+Theorem pq_at_least_once_when_drained : forall c h,
+  (forall r, ~ durable (fst (run_history c store0 h)) r) ->
+  forall r, In r (accepted (snd (run_history c store0 h))) -> In r (handoffs (snd (run_history c store0 h))).
+Proof. exact drained_all_handed_l. Qed.
+Print Assumptions pq_at_least_once_when_drained.
+
+(* first sentence: every accepted request is handed to the consumer at least once, in the current
+   or a later incarnation — for EVERY history h (any deaths, also inside recovery, also repeated):
+   after h, k clean drain incarnations (each: n times Read + successful completion, no death) hand
+   off every accepted request.  n bounds the requests pending in the store h leaves behind; more
+   than one drain incarnation is needed because a request whose re-put at start-up is refused by
+   the capacity check stays listed under "di" and is moved back by a LATER start (at least one
+   per start once the queue is empty): k >= |di| + 2.  [fits c]: every request fits into the empty
+   queue (otherwise it is never accepted in the first place). *)
+Theorem pq_at_least_once : forall c h n k,
+  fits c ->
+  (pending (fst (run_history c store0 h)) <= n)%nat ->
+  (length (di_of (fst (run_history c store0 h))) + 2 <= k)%nat ->
+  forall r, In r (accepted (snd (run_history c store0 (h ++ drains n k)))) ->
+            In r (handoffs (snd (run_history c store0 (h ++ drains n k)))).
+Proof. exact at_least_once_l. Qed.
+Print Assumptions pq_at_least_once.
+
+(* one clean drain incarnation empties the range [ri, wi) and never lengthens "di"; started on an
+   empty range it leaves nothing durable or strictly shortens "di" (progress of the retry) *)
+Theorem pq_drain_progress : forall c h n,
+  fits c ->
+  let st := fst (run_history c store0 h) in
+  (pending st <= n)%nat ->
+  let st' := i_store (incarnation c st (drain_script n) None) in
+  fst (eff st') = snd (eff st') /\
+  (length (di_of st') <= length (di_of st))%nat /\
+  (fst (eff st) = snd (eff st) -> nothing_durable st' \/ (length (di_of st') < length (di_of st))%nat).
+Proof. exact drain_progress_l. Qed.
+Print Assumptions pq_drain_progress.
+
+(* the stored indexes (as a restart decodes them) never decrease, at any crash point: for every
+   history h1 and every continuation h2 (any scripts, any deaths) *)
+Theorem pq_indexes_monotone : forall c h1 h2,
+  (fst (eff (fst (run_history c store0 h1))) <= fst (eff (fst (run_history c store0 (h1 ++ h2)))))%N /\
+  (snd (eff (fst (run_history c store0 h1))) <= snd (eff (fst (run_history c store0 (h1 ++ h2)))))%N.
+Proof. exact indexes_monotone_l. Qed.
+Print Assumptions pq_indexes_monotone.
+
+(* FIFO inside one incarnation: whatever the store, the script and the death point, the indexes
+   handed out by Read are strictly increasing (requests leave in the order of their indexes) *)
+Theorem pq_fifo_single_incarnation : forall c st sc b,
+  StronglySorted N.lt (read_idx (i_obs (incarnation c st sc b))).
+Proof. exact fifo_incarnation_l. Qed.
+Print Assumptions pq_fifo_single_incarnation.
